@@ -31,3 +31,31 @@ class RemInterp(Interp):
             self.quotients.append(k)
             return self.o.sub(x, self.o.mul(c, kr))
         return emap(f, a, b)
+
+
+class FPRemInterp(Interp):
+    """FP32 mode with float remainder as an uninterpreted function `rem_f32(x, c)` constrained by the IEEE fmod facts that
+    matter for range questions: for finite x and finite non-zero c the result is finite (not NaN) and |r| < |c|
+    (recorded in `self.assumptions`).  Nothing else about the remainder is assumed."""
+
+    def __init__(self, *a, **kw):
+        kw.setdefault("mode", "fp32")
+        super().__init__(*a, **kw)
+
+    def p_rem(self, e, a, b):
+        if self._isint(e):
+            return Interp.p_rem(self, e, a, b)
+        from .ops import F32, UFun
+
+        def f(x, c):
+            if isconc(x) and isconc(c):
+                import numpy as np
+                with np.errstate(all="ignore"):
+                    return np.float32(np.fmod(np.float32(x), np.float32(c)))
+            zx, zc = self.o.zf(x), self.o.zf(c)
+            r = UFun("rem_f32", [F32, F32], F32)(zx, zc)
+            fin = lambda t: z3.And(z3.Not(z3.fpIsNaN(t)), z3.Not(z3.fpIsInf(t)))
+            self.assumptions.append(z3.Implies(z3.And(fin(zx), fin(zc), z3.Not(z3.fpIsZero(zc))),
+                                               z3.And(fin(r), z3.fpLT(z3.fpAbs(r), z3.fpAbs(zc)))))
+            return r
+        return emap(f, a, b)
